@@ -188,6 +188,18 @@ pub fn clash_corpus() -> CorpusSpec {
     }
 }
 
+pub fn wide_corpus(tier: Tier) -> CorpusSpec {
+    let thorough = tier == Tier::Thorough;
+    CorpusSpec {
+        name: format!("wide_{}", if thorough { "t" } else { "q" }),
+        programs_expr: format!("vmodel::corpus::wide_corpus({thorough})"),
+        programs: vmodel::corpus::wide_corpus(thorough),
+        shards: if thorough { 16 } else { 8 },
+        main_call: "vrt::explore::main(entries);".into(),
+        suggestions: true,
+    }
+}
+
 pub fn all_specs(tier: Tier) -> Vec<CorpusSpec> {
-    vec![struct_corpus(tier), enum_corpus(tier), attr_corpus(tier)]
+    vec![struct_corpus(tier), enum_corpus(tier), attr_corpus(tier), wide_corpus(tier)]
 }
